@@ -1,12 +1,194 @@
-import U3.Lemmas.PoolConc
+import U3.Lemmas.PoolConcInv
 /-!
 # C02 — concurrent requests never share a connection, exceed maxsize, or deadlock
 
 Model: `U3.PoolConc` (small-step interleaving semantics of `_get_conn` / `_put_conn` / `close` /
-`release_conn`, one step per access to shared state).  `run cfg progs σ` executes the schedule `σ`.
+`release_conn`, one step per access to shared state).  `run cfg progs σ` executes the schedule `σ`
+(a list of thread indices, any length) on any number of threads `progs`.  All positive theorems
+are proved by invariant induction over `runFrom` (`U3.Lemmas.PoolConcInv`: `Inv`, `InvB`, `InvM`,
+`InvR`, preserved by every step of every thread) and hold for **every** configuration, every list
+of thread programs and every schedule.
 -/
 namespace U3.Props
 open U3 U3.PoolConc
+
+/-! ## Exclusive use -/
+
+/-- **Exclusive use.**  In every reachable configuration no connection id is held (in a request in
+flight, in a `_put_conn` / drain step, or by a streaming response) by two threads, a thread never
+holds the same connection twice, a queued connection is held by no thread, and the queue holds no
+connection twice. -/
+theorem C02_exclusive_use (cfg : Cfg) (progs : List (List Op)) (σ : List Nat) :
+    let s := run cfg progs σ
+    (∀ c, (holders s c).length ≤ 1) ∧
+    (∀ c ∈ queueConns s.sh, holders s c = []) ∧
+    (queueConns s.sh).Nodup ∧
+    (∀ th ∈ s.threads, th.owned.Nodup) := by
+  intro s
+  have hi := (invAll_run cfg progs σ).ids
+  refine ⟨?_, ?_, hi.qnodup, ?_⟩
+  · intro c
+    apply length_le_one_of_all_eq (holders_nodup s c)
+    intro a ha b hb
+    obtain ⟨tha, ga, hca⟩ := mem_holders.mp ha
+    obtain ⟨thb, gb, hcb⟩ := mem_holders.mp hb
+    by_cases e : a = b
+    · exact e
+    · exact absurd hcb (hi.disj a b tha thb ga gb e c hca)
+  · intro c hc
+    apply List.eq_nil_iff_forall_not_mem.mpr
+    intro t ht
+    obtain ⟨th, g, hcth⟩ := mem_holders.mp ht
+    exact (hi.tlt t th g c hcth).2 hc
+  · intro th hth
+    obtain ⟨t, g⟩ := List.getElem?_of_mem hth
+    exact hi.tnodup t th g
+
+/-! ## `block=True` bounds the number of open sockets -/
+
+/-- **Block bound.**  With `block=True` the number of simultaneously open connections never
+exceeds `maxsize`: neither now (`openC`) nor at any earlier moment of the run (the ghost
+high-water mark `maxOpen`), and the slots are never over-committed. -/
+theorem C02_block_bound (cfg : Cfg) (progs : List (List Op)) (σ : List Nat)
+    (hb : cfg.block = true) :
+    let s := run cfg progs σ
+    s.sh.maxOpen ≤ cfg.maxsize ∧ s.sh.openC.length ≤ cfg.maxsize ∧
+    s.sh.queue.length + leases s ≤ cfg.maxsize := by
+  intro s
+  have hi := invAll_run cfg progs σ
+  have hc : s.cfg = cfg := by simp [s, run, init]
+  have hb' : s.cfg.block = true := by rw [hc]; exact hb
+  rw [← hc]
+  exact ⟨hi.mx hb', open_le hi.ids hi.cnt hb', hi.cnt.slots hb'⟩
+
+/-- non-vacuity: a `block=True` pool of size 1 used by two threads does open one socket -/
+example : (run ⟨1, true, false⟩ [[.req 0 .ok false], [.req 0 .ok false]]
+    [0, 0, 0, 0, 0, 0, 0, 0, 1, 1, 1, 1, 1, 1, 1, 1]).sh.maxOpen = 1 := by decide
+
+/-! ## Every request gets its own response -/
+
+/-- **Own response.**  In every reachable configuration a thread that waits for a response waits
+on a connection whose pending response (`wire`) carries that thread's own tag — (its index, its
+request counter) — and no finished op has the result `wrongResp`: every `Res.ok` of a request is
+the response to its own tag. -/
+theorem C02_own_response (cfg : Cfg) (progs : List (List Op)) (σ : List Nat) :
+    let s := run cfg progs σ
+    (∀ (t : Nat) (th : Thread), s.threads[t]? = some th → ∀ c tag f l st,
+        th.pc = .recv c tag f l st →
+        wireGet s.sh.wire c = some tag ∧ tag = (t, th.sent - 1) ∧ 0 < th.sent) ∧
+    (∀ rs ∈ results s, ∀ p ∈ rs, p.2 ≠ .wrongResp) := by
+  intro s
+  have hi := invAll_run cfg progs σ
+  constructor
+  · intro t th g c tag f l st hpc
+    have h1 := hi.ids.recv t th g c tag f l st hpc
+    have h2 := hi.ids.tag t th g c tag f l st hpc
+    refine ⟨h1, ?_, by omega⟩
+    rcases tag with ⟨a, b⟩
+    simp at h2 ⊢
+    omega
+  · intro rs hrs p hp
+    simp only [results, List.mem_map] at hrs
+    obtain ⟨th, hth, rfl⟩ := hrs
+    obtain ⟨t, g⟩ := List.getElem?_of_mem hth
+    have := hi.res.good t th g p hp
+    intro e
+    simp [GoodRes, e] at this
+
+/-! ## Concurrent `close()` -/
+
+/-- number of `close` ops in the thread programs -/
+def closeCount (progs : List (List Op)) : Nat := (progs.map closesIn).sum
+
+/-
+Full statement (false of the code, see the two witnesses below and `known_findings/C02.json`):
+  with a concurrent `close()` every op ends (never hangs) with a result in
+  {ok, closedPool, emptyPool, failed}.
+Proved instead: the result classes for ALL configurations with the precise situations that
+produce the exceptions.
+-/
+
+/-- **Close race (partial).**  Under every schedule, with any number of concurrent `close()`
+calls, every finished op has a result in {`ok`, `closedPool`, `emptyPool`, `failed`} — never
+`FullPoolError`, never a foreign response — except for an internal error (`AttributeError`) in
+exactly two situations: a request / `release_conn` of a **`block=False`** pool (the
+`self.pool.qsize()` argument of the "pool is full" warning, known finding), and a `close()` when
+the programs contain **at least two** `close()` calls (the second closer passes `None` to
+`_close_pool_connections`). -/
+theorem C02_close_race_partial (cfg : Cfg) (progs : List (List Op)) (σ : List Nat) :
+    ∀ rs ∈ results (run cfg progs σ), ∀ p ∈ rs,
+      p.2 = .ok ∨ p.2 = .closedPool ∨ p.2 = .emptyPool ∨ p.2 = .failed ∨
+      (p.2 = .internalErr ∧ p.1 ≠ .close ∧ cfg.block = false) ∨
+      (p.2 = .internalErr ∧ p.1 = .close ∧ 2 ≤ closeCount progs) := by
+  intro rs hrs p hp
+  have hi := invAll_run cfg progs σ
+  simp only [results, List.mem_map] at hrs
+  obtain ⟨th, hth, rfl⟩ := hrs
+  obtain ⟨t, g⟩ := List.getElem?_of_mem hth
+  have h := hi.res.good t th g p hp
+  have hc : (run cfg progs σ).cfg = cfg := by simp [run, init]
+  have hn : closeTotal (run cfg progs σ) = closeCount progs := by
+    rw [run, closeTotal_runFrom, closeTotal_init]; rfl
+  rw [hc, hn] at h
+  exact h
+
+/-- **Close race, `block=True`, one closer.**  A `block=True` pool raced by at most one `close()`:
+every finished op ended normally, with `ClosedPoolError`, `EmptyPoolError` or its scripted failure
+— no internal error at all. -/
+theorem C02_close_race_block (cfg : Cfg) (progs : List (List Op)) (σ : List Nat)
+    (hb : cfg.block = true) (h1 : closeCount progs ≤ 1) :
+    ∀ rs ∈ results (run cfg progs σ), ∀ p ∈ rs,
+      p.2 = .ok ∨ p.2 = .closedPool ∨ p.2 = .emptyPool ∨ p.2 = .failed := by
+  intro rs hrs p hp
+  rcases C02_close_race_partial cfg progs σ rs hrs p hp with h | h | h | h | h | h
+  · exact Or.inl h
+  · exact Or.inr (Or.inl h)
+  · exact Or.inr (Or.inr (Or.inl h))
+  · exact Or.inr (Or.inr (Or.inr h))
+  · simp [hb] at h
+  · omega
+
+/-- non-vacuity: a racing `close()` on a `block=True` pool does produce `ClosedPoolError` -/
+example : closeCount [[.req 0 .ok false], [.close]] ≤ 1 ∧
+    results (run ⟨1, true, true⟩ [[.req 0 .ok false], [.close]] [1, 1, 1, 1, 1, 0]) =
+      [[(.req 0 .ok false, .closedPool)], [(.close, .ok)]] := by decide
+
+/-- **Where the internal error arises.**  From every reachable configuration, a step of thread `t`
+adds an `internalErr` result only when `self.pool` is already `None` and the thread is at the
+`self.pool.qsize()` step of `_put_conn` (reached only through `queue.Full` on a `block=False`
+pool) or at the swap of a second `close()`; it never adds `fullPool` or `wrongResp`. -/
+theorem C02_close_race_step (cfg : Cfg) (progs : List (List Op)) (σ : List Nat) (t : Nat)
+    (s' : State) (h : step (run cfg progs σ) t = some s') :
+    ∃ th th', (run cfg progs σ).threads[t]? = some th ∧ s'.threads[t]? = some th' ∧
+      ∀ p ∈ th'.results, p ∈ th.results ∨
+        p.2 = .ok ∨ p.2 = .closedPool ∨ p.2 = .emptyPool ∨ p.2 = .failed ∨
+        (p.2 = .internalErr ∧ (run cfg progs σ).sh.poolRef = none ∧ cfg.block = false ∧
+          ∃ i k, th.pc = .warnLoad i k) ∨
+        (p.2 = .internalErr ∧ (run cfg progs σ).sh.poolRef = none ∧ th.pc = .closeSwap) := by
+  have hi := invAll_run cfg progs σ
+  have hc : (run cfg progs σ).cfg = cfg := by simp [run, init]
+  obtain ⟨th, sh', th', hget, hts, rfl⟩ := step_some h
+  refine ⟨th, th', hget, by simp [getElem?_set_of_get hget], ?_⟩
+  intro p hp
+  rcases tstep_results_mem hts (hi.ids.recv _ _ hget) (hi.ids.cont _ _ hget) p hp with
+    h1 | h1 | h1 | h1 | h1 | ⟨-, hblock, i, k, hpc⟩ | ⟨h1, hnone, ⟨i, k, hpc⟩ | hpc⟩
+  · exact Or.inl h1
+  · exact Or.inr (Or.inl h1)
+  · exact Or.inr (Or.inr (Or.inl h1))
+  · exact Or.inr (Or.inr (Or.inr (Or.inl h1)))
+  · exact Or.inr (Or.inr (Or.inr (Or.inr (Or.inl h1))))
+  · exact absurd hpc (hi.cnt.nofull hblock _ _ hget i k).1
+  · refine Or.inr (Or.inr (Or.inr (Or.inr (Or.inr (Or.inl ⟨h1, hnone, ?_, i, k, hpc⟩)))))
+    rw [← hc]
+    cases hbl : (run cfg progs σ).cfg.block with
+    | false => rfl
+    | true => exact absurd hpc (hi.cnt.nofull hbl _ _ hget i k).2
+  · exact Or.inr (Or.inr (Or.inr (Or.inr (Or.inr (Or.inr ⟨h1, hnone, hpc⟩)))))
+
+/-- non-vacuity: the schedule of finding 2 reaches such a step -/
+example : ∃ s', step (run ⟨1, false, false⟩ [[.req 0 .ok false], [.req 0 .ok false], [.close]]
+    [0, 0, 0, 1, 1, 1, 1, 1, 1, 1, 1, 0, 0, 0, 0, 0, 0, 2, 2]) 0 = some s' := by
+  exact ⟨_, rfl⟩
 
 /-! ## The two ways in which the code (and therefore the model) violates the property text -/
 
@@ -28,5 +210,51 @@ theorem C02_close_race_internal_error_witness :
     let s := run ⟨1, false, false⟩ [[.req 0 .ok false], [.req 0 .ok false], [.close]]
       [0, 0, 0, 1, 1, 1, 1, 1, 1, 1, 1, 0, 0, 0, 0, 0, 0, 2, 2, 0]
     (s.threads.map (·.results))[0]? = some [(.req 0 .ok false, .internalErr)] := by decide
+
+/-- **Third excluded case (two concurrent `close()` calls).**  Both closers pass
+`if self.pool is None`, the first swaps, the second swaps `None` out and calls
+`_close_pool_connections(None)`: `AttributeError`.  (Outside the property's quantifier — at most
+one closing thread — hence not a listed finding; it is why `C02_close_race_partial` has its last
+disjunct.) -/
+theorem C02_double_close_internal_error_witness :
+    results (run ⟨1, false, false⟩ [[.close], [.close]] [0, 1, 0, 1]) =
+      [[], [(.close, .internalErr)]] := by decide
+
+/-! ## Dropping the closed pool closes everything -/
+
+/-- **Drop closes all.**  In every reachable configuration, a socket still open after the pool
+object has been dropped (`weakref.finalize` drains whatever is queued — also what racing
+`_put_conn`s put into the old queue after `close()` drained it) belongs to a connection some
+thread still holds (a request in flight or an unreleased streaming response).  Hence once every
+thread holds nothing — in particular after `close()`, all threads done and every streamed response
+released — no socket is open. -/
+theorem C02_drop_closes_all (cfg : Cfg) (progs : List (List Op)) (σ : List Nat) :
+    let s := run cfg progs σ
+    (∀ c ∈ openAfterDrop s, ∃ (t : Nat) (th : Thread), s.threads[t]? = some th ∧ c ∈ th.owned) ∧
+    ((∀ th ∈ s.threads, th.owned = []) → openAfterDrop s = []) := by
+  intro s
+  have hi := (invAll_run cfg progs σ).ids
+  have h1 : ∀ c ∈ openAfterDrop s, ∃ (t : Nat) (th : Thread), s.threads[t]? = some th ∧ c ∈ th.owned := by
+    intro c hc
+    simp only [openAfterDrop, List.mem_filter, Bool.not_eq_true', List.contains_eq_mem,
+      decide_eq_false_iff_not] at hc
+    rcases hi.osub c hc.1 with h | h
+    · exact absurd h hc.2
+    · exact h
+  refine ⟨h1, ?_⟩
+  intro hall
+  apply List.eq_nil_iff_forall_not_mem.mpr
+  intro c hc
+  obtain ⟨t, th, g, hcth⟩ := h1 c hc
+  rw [hall th (List.mem_of_getElem? g)] at hcth
+  simp at hcth
+
+/-- non-vacuity: request racing `close()`; the late `_put_conn` leaves an open connection in the
+old queue (`openC ≠ []`), all threads are done and hold nothing, and the drop closes it -/
+example :
+    let s := run ⟨1, false, false⟩ [[.req 0 .ok false], [.close]]
+      [0, 0, 0, 0, 0, 0, 0, 1, 1, 1, 1, 1, 0]
+    allDone s = true ∧ s.sh.poolRef = none ∧ s.sh.openC = [0] ∧
+      (∀ th ∈ s.threads, th.owned = []) ∧ openAfterDrop s = [] := by decide
 
 end U3.Props
